@@ -1,5 +1,6 @@
 #!/usr/bin/env python3
-"""One-off generator of spec/panic_sites.json: assigns a discharge (class + reason) to every site
+"""One-off generator of spec/panic_sites.json (keys: <file>|<kind>|<coarse shape>, with the number of
+reviewed sites of that shape): assigns a discharge (class + reason) to every site
 of the census on the tree it is run on, by the hand-written patterns below; sites no pattern covers
 are printed and NOT written (they need a decision). The resulting file is frozen and reviewed; the
 check never writes it."""
@@ -55,22 +56,35 @@ RULES = [
  (r"run_async_validators\|std:block_on", "invariant", "block_on is called from a plain OS thread, never from inside a runtime"),
 ]
 
-oks = sorted(glob.glob('/verif/.cache/facts/*.ok'), key=os.path.getmtime)
-c = Ctx(oks[-1][:-3])
+os.system('cd /verif && ./check C04 > /dev/null')   # refreshes .cache/facts/cur.* (facts of /repo itself)
+c = Ctx()
 S = census.sites(c, c.reachable_bodies())
 table = {}
 un = []
+sys.path.insert(0, '/verif')
+from rules.C04 import auto_discharge
 for s in S:
     if s['kind'] == 'overflow-Add':
         continue
+    if auto_discharge(c, s):
+        continue
     for rx, cls, reason in RULES:
         if re.search(rx, s['key']):
-            table[s['key']] = {"class": cls, "reason": reason}
+            e = table.setdefault(s['ckey'], {"class": cls, "reasons": [], "count": 0, "sites": []})
+            e["count"] += 1
+            if reason not in e["reasons"]:
+                e["reasons"].append(reason)
+            e["sites"].append(s['key'].split("|")[0])
+            if e["class"] != cls:
+                e["class"] = e["class"] + "+" + cls if cls not in e["class"] else e["class"]
             break
     else:
         un.append(s['key'])
-print(len(table), "discharged;", len(un), "without a pattern")
+print(len(table), "keys discharged;", len(un), "sites without a pattern")
 for u in un: print("  ", u)
 if not un or '--force' in sys.argv:
+    for e in table.values():
+        e["reason"] = " / ".join(e.pop("reasons"))
+        e["sites"] = sorted(set(e["sites"]))
     json.dump(table, open('/verif/spec/panic_sites.json', 'w'), indent=1, sort_keys=True)
     print("written")
